@@ -823,6 +823,8 @@ def main(pid, tier, repo=None):
     rule_consumed(ctx, bs)
     rule_retry(ctx, bs)
     rule_auxbox(ctx)
+    from . import c09
+    c09.rule_refeed(ctx)
     specconst.run(ctx, pid)
     ctx.not_decided("byte-exact reassembly and payload delivery (value-level); Brotli decompression")
     return ctx.finish(
